@@ -507,7 +507,6 @@ func nonNilErrTested(info *types.Info, cond ast.Expr) types.Object {
 	return obj
 }
 
-
 // checkDeferLocal: a deferred literal that assigns an error to a plain local variable of the enclosing
 // function (not a named result) cannot influence what the function returns: the return value was
 // already copied when deferred functions run. Tolerated when another deferred literal reads the variable.
